@@ -796,6 +796,10 @@ MUTANTS = [
            lambda f, t: (lambda tr: (tr.body.append(tr.orelse[0]), setattr(tr, "orelse", [])))([n for n in ast.walk(f) if isinstance(n, ast.Try) and n.orelse][0])),
     Mutant("C14", "remove-by-name-only-for-truthy-names", "C14-R4", NSV, "NameServer.remove",
            lambda f, t: replace_expr(f, lambda e: isinstance(e, ast.Compare) and u(e) == "name is not None", "name")),
+    Mutant("C16", "weak-finalizer-unregisters-whatever-has-the-id", "C16-R5", S, "Daemon.register",
+           lambda f, t: replace_expr(f, lambda e: isinstance(e, ast.Call) and u(e.func) == "weakref.finalize", "weakref.finalize(obj_or_class, self.unregister, objectId)")),
+    Mutant("C16", "weak-finalizer-callback-without-the-identity-test", "C16-R5", S, "Daemon.__unregister_collected",
+           lambda f, t: replace_stmt(f, lambda s: isinstance(s, ast.If), stmts("self.unregister(objectId)"))),
     Mutant("C18", "communication-timeout-set-by-the-worker", "C18-R3", ST, "SocketServer_Threadpool.events",
            lambda f, t: (delete_stmt(f, lambda s: isinstance(s, ast.If) and "COMMTIMEOUT" in u(s.test)),
                          find_fn(t, "ClientConnectionJob.__call__").body.insert(0, stmts("if config.COMMTIMEOUT:\n    self.csock.timeout = config.COMMTIMEOUT")[0])), also=("C05",)),
